@@ -341,6 +341,7 @@ func cmdCheck(args []string) int {
 	violations := 0
 	discharged, counted := 0, 0
 	covers, coversOK := 0, 0
+	coversUndecided := 0
 	var knownHit []string
 	var samples []interface{}
 	backends := map[string]int{}
@@ -364,6 +365,11 @@ func cmdCheck(args []string) int {
 				// an earlier obligation of this function failed; its condition is assumed downstream, so the
 				// cover says nothing here (the failure itself is reported as the violation)
 				coversOK++
+			} else if ob.status != "unsat" {
+				// the solvers did not decide the guard within its (short) budget: neither evidence of vacuity
+				// nor of reachability; reported, not counted as sat, and no verdict is drawn from it
+				fmt.Printf("NOTE: vacuity guard %s undecided (%s)\n", ob.name, ob.status)
+				coversUndecided++
 			} else {
 				fmt.Printf("BROKEN-CHECK: vacuity guard %s is not satisfiable (%s): contradictory contract or model\n", ob.name, ob.status)
 				rc = 2
@@ -450,6 +456,7 @@ func cmdCheck(args []string) int {
 		"obligation_results":       evObs,
 		"vacuity_covers":           covers,
 		"vacuity_covers_sat":       coversOK,
+		"vacuity_covers_undecided": coversUndecided,
 		"known_findings":           knownHit,
 		"unresolved_targets":       unresolved,
 		"backends":                 backends,
